@@ -1104,6 +1104,9 @@ func c10EndToEnd(rep *Report) {
 				if _, ok := b.Right.(*ast.ArrayNode); ok {
 					left = "membership in an array literal left in the optimized tree"
 				}
+				if cn, ok := b.Right.(*ast.ConstantNode); ok && cn.Value != nil && reflect.TypeOf(cn.Value).Kind() == reflect.Slice && strings.Contains(c.src, "..") {
+					left = "membership in a literal range answered by searching the materialised range instead of the two comparisons"
+				}
 			}
 		})
 		if left != "" {
